@@ -220,7 +220,8 @@ class NP:
 
     def isclose(self, a, b, rtol=1e-5, atol=1e-8, **kw):
         if _has_sym(a) or _has_sym(b):
-            return abs(a - b) <= atol + rtol * abs(b)
+            r = abs(a - b) <= atol + rtol * abs(b)
+            return _np.bool_(r) if isinstance(r, bool) else r
         return _np.isclose(a, b, rtol=rtol, atol=atol, **kw)
 
     def allclose(self, a, b, rtol=1e-5, atol=1e-8, **kw):
@@ -317,6 +318,36 @@ class NP:
         if isinstance(a, SymReal) or isinstance(b, SymReal):
             return a if bool(a <= b) else b
         return _np.minimum(a, b)
+
+    def copyto(self, dst, src, where=True, **kw):
+        if _isobj(dst) or _has_sym(src) or _has_sym(where):
+            d = _np.asarray(dst)
+            srcb = _np.broadcast_to(_np.asarray(src, dtype=object), d.shape)
+            wb = _np.broadcast_to(_np.asarray(where, dtype=object), d.shape)
+            if d.ndim == 0:
+                if bool(wb[()]):
+                    d[()] = srcb[()]
+                return
+            for idx in _np.ndindex(d.shape):
+                if bool(wb[idx]):
+                    d[idx] = srcb[idx]
+            return
+        return _np.copyto(dst, src, where=where, **kw)
+
+    def divide(self, a, b, out=None, where=True, **kw):
+        if _has_sym(a) or _has_sym(b) or _isobj(out) or _has_sym(where):
+            aa = _np.asarray(a, dtype=object)
+            bb = _np.asarray(b, dtype=object)
+            shape = _np.broadcast(aa, bb).shape
+            res = out if out is not None else _np.empty(shape, dtype=object)
+            r = _np.asarray(res)
+            ab, bbb = _np.broadcast_to(aa, shape), _np.broadcast_to(bb, shape)
+            wb = _np.broadcast_to(_np.asarray(where, dtype=object), shape)
+            for idx in (_np.ndindex(shape) if shape else [()]):
+                if bool(wb[idx]):
+                    r[idx] = ab[idx] / bbb[idx]
+            return _wrap(r) if out is None else out
+        return _np.divide(a, b, out=out, where=where, **kw)
 
     def sum(self, a, *args, **kw):
         return _np.sum(_plain(a) if isinstance(a, _np.ndarray) else a, *args, **kw)
